@@ -1226,7 +1226,19 @@ pub fn engine_of(prop: &str) -> &'static str {
 
 pub fn gen_any(prop: &str, seed: u64) -> Value {
     match engine_of(prop) {
-        "seq" => serde_json::to_value(gen_cfg(prop, seed)).unwrap(),
+        "seq" => {
+            // a generated stack must be buildable by construction: initial contents of one leaf
+            // never put an entry below a file or the same path twice with different types. If a
+            // generator slips, the configuration is re-drawn (deterministically), never run.
+            let mut cfg = gen_cfg(prop, seed);
+            let mut attempt = 0u64;
+            while !cfg.specs.iter().all(|s| s.self_consistent()) && attempt < 8 {
+                attempt += 1;
+                cfg = gen_cfg(prop, crate::rng::mix(seed, 0x5EED_0000 + attempt));
+                cfg.seed = seed;
+            }
+            serde_json::to_value(cfg).unwrap()
+        }
         "conc" => serde_json::to_value(gen_conc(prop, seed)).unwrap(),
         e => panic!("engine {} not built yet", e),
     }
@@ -1238,7 +1250,20 @@ pub fn run_any(prop: &str, cfg: &Value, trace: bool) -> RunOut {
         if e.starts_with("LIBRARY-PANIC") {
             // a legitimate call (create_dir_all / create_file of the initial contents) panicked
             let msg: String = e.chars().filter(|c| !c.is_ascii_digit()).take(140).collect();
+            let msg: String = match msg.find(|c| c == '\'' || c == '`' || c == '"') {
+                Some(k) => msg[..k].to_string(),
+                None => msg,
+            };
             out.violations.push(Violation { property: prop.to_string(), key: format!("{}|{}|build|{}", prop, shape_of(cfg), msg), detail: e.clone(), step: 0 });
+            out.harness_error = None;
+        } else if e.contains("LIBRARY-BUILD-ERROR") {
+            // the initial contents of a generated stack are a tree by construction (checked when the
+            // configuration is drawn): create_dir_all / create_file + write on a fresh filesystem
+            // failed, which no property allows
+            let msg: String = e.chars().filter(|c| !c.is_ascii_digit()).take(60).collect();
+            let what = if e.contains("File already exists") { "file-exists" } else if e.contains("not exist") || e.contains("No such") { "not-found" } else { "other" };
+            let _ = msg;
+            out.violations.push(Violation { property: prop.to_string(), key: format!("{}|{}|build|initial-contents-refused:{}", prop, shape_of(cfg), what), detail: format!("building the stack through the public API failed: {}", e), step: 0 });
             out.harness_error = None;
         }
     }
